@@ -382,6 +382,10 @@ func (b *Built) resolver(defType string, fd *model.FieldDef) graphql.FieldResolv
 			return nil, nil
 		case "err":
 			return nil, errors.New(r.ErrMsg)
+		case "err_ctx":
+			// the error of a context of the resolver's own (a backend call that timed out): an
+			// ordinary field error, whatever the state of the request's context
+			return nil, fmt.Errorf("%s: %w", r.ErrMsg, context.DeadlineExceeded)
 		case "err_foreign":
 			// an error that was already located and formatted for some other request (what a
 			// delegating resolver returns): its path and location are not this field's
